@@ -24,6 +24,7 @@ MANIFEST = {
     "note": "Trusts the 20-line reference splitter (LF/CRLF only, the code's own terminator definition) and Python's str.isspace "
             "as the widest whitespace definition.",
 }
+MANIFEST["text"] += " Every file written by real generators (built-in templates, and user templates whose files begin and end with blank lines, several processor lists) is compared with the processors the call site really applied, instantiated afresh, run over that file's own complete text."
 _NL = re.compile(r"\r\n|\n")
 
 
